@@ -67,7 +67,7 @@ def odd_line(rng, includes):
         b'  begin ' + n + b'  ', b'begin ' + n.upper(), b'begin ' + n.lower(), b'b', b'be', b'bx y',
         b'end', b'  end  ', b'end ', b'end of it', b'END', b'End', b'eND', b'eNd x', b'endx', b'en', b'e', b'ending soon',
         b'%', b'  %  ', b'%"', b"%'", b'%zz', b'%zz top', b'% zz', b'%put(k v)', b'%put(kk w)', b'%put(a 1)',
-        b'%include', b'%include ', b'%includex f', b'%include nosuchfile', b'%INCLUDE nosuchfile', b'%include  nomagic',
+        b'%prefix x', b'%prepro x', b'%preprocess x', b'%preproc', b'%include', b'%include ', b'%includex f', b'%include nosuchfile', b'%INCLUDE nosuchfile', b'%include  nomagic',
         b'x', b'a=b', b'text with # inside', b'text <with> brackets', b'  spaced   out  ',
     ]
     for inc in includes:
@@ -193,6 +193,11 @@ def gen_include_depth(rng, depths):
         toks += ['i', 'r' + hx(b'foo'), 'pf0', 'd', 'f']
         cases.append('hist ' + ' '.join(toks))
     return cases
+
+
+def gen_chain(depths):
+    """%include nested d deep through a chain of d generated files (token C<d>), each opening a block"""
+    return ['hist C%d i r%s pc0 d f' % (d, hx(b'foo')) for d in depths]
 
 
 def gen_tables(rng, counts):
